@@ -15,7 +15,7 @@ def suite(tier, seed):
     cases = []
     small = 10 if tier == "quick" else 60
     large = 16 if tier == "quick" else 120
-    fams = ["uniform", "lattice", "tiny", "cospherical", "coplanar"]
+    fams = ["uniform", "lattice", "tiny", "cospherical", "coplanar", "onwalls"]
     k = 0
     while len([c for c in cases if c["group"] == "small"]) < small * 8 and k < small * 4:
         fam = fams[k % len(fams)]
@@ -44,6 +44,19 @@ def suite(tier, seed):
         for kind in ("random", "single", "none", "all", "random"):
             m = T.with_mask(rng, inp, kind)
             cases.append(dict(m, group="large", base=base))
+    # periodic boxes with generator coordinates exactly on anchor + width (the other representative of the lower wall)
+    for j in range(4 if tier == "quick" else 24):
+        dim = (j % 3) + 1
+        inp = T.gen_input(rng, "uniform", dim, True, nmax=12)
+        gens = [list(g) for g in inp["gens"]]
+        for t in range(min(2, len(gens))):
+            a = rng.below(dim)
+            gens[t][a] = inp["anchor"][a] + inp["width"][a]
+        inp = T.dedupe(dict(inp, gens=gens, family="upperwall"))
+        base = len(cases)
+        cases.append(dict(inp, mask=None, group="large", base=base))
+        m = T.with_mask(rng, inp, "random")
+        cases.append(dict(m, group="large", base=base))
     return cases
 
 
